@@ -19,6 +19,8 @@ def pumped(n):
     out = []
     out.append(("pump-cl-digits", fg.msg(method=b"POST", headers=[H, (b"Content-Length", b"1" * n)])))
     out.append(("pump-cl-zeros", fg.msg(method=b"POST", headers=[H, (b"Content-Length", b"0" * n + b"3")], body=b"abc")))
+    out.append(("pump-cl-all-zeros", fg.msg(method=b"POST", headers=[H, (b"Content-Length", b"0" * n)])))
+    out.append(("pump-cl-zeros-30", fg.msg(method=b"POST", headers=[H, (b"Content-Length", b"0" * n + b"30")], body=b"b" * 30)))
     out.append(("pump-token", fg.msg(headers=[H, (b"X" * n, b"v")])))
     out.append(("pump-value", fg.msg(headers=[H, (b"X-V", b"v" * n)])))
     out.append(("pump-fields", fg.msg(headers=[H] + [(b"X-%d" % i, b"v") for i in range(min(n, 300))])))
@@ -87,6 +89,11 @@ def run(chk, replay=None):
                         chk.violation({"kind": "totality", "family": name, "raised": o["raised"], "hang": o["hang"]},
                                       "pumped stream %s*%d (%d bytes, %d reads): raised=%s hang=%s errors=%s" % (name, n, len(s), len(cuts) + 1, o["raised"], o["hang"], o["errors"][:2]),
                                       replay={"family": name, "n": n})
+                    elif name in ("pump-cl-all-zeros", "pump-cl-zeros", "pump-cl-zeros-30") and len(s) < 262144 and not cuts and (codes or [e["k"] for e in o["obs"]][:1] != ["app"]):
+                        # a number that is only padded with zeros is still that number: the request is served
+                        chk.violation({"kind": "totality", "family": name, "codes": codes}, "zero-padded Content-Length (%d digits) was not served: %s" % (n, [(e["k"], e.get("code")) for e in o["obs"]]))
+                    elif name == "pump-cl-zeros-30" and len(s) < 262144 and not cuts and [len(e.get("body", [])) for e in o["obs"] if e["k"] == "app"][:1] != [30]:
+                        chk.violation({"kind": "totality", "family": name, "codes": codes}, "Content-Length 0..030 (%d digits): body of %s bytes delivered" % (n, [len(e.get("body", [])) for e in o["obs"] if e["k"] == "app"]))
                     elif any(c not in (400, 413, 431, 501) for c in codes):
                         chk.violation({"kind": "totality", "family": name, "codes": codes}, "pumped stream %s*%d answered with %s" % (name, n, codes))
     finally:
